@@ -454,8 +454,20 @@ func v10StartServer(cfg *Config) *v10Srv {
 
 func (sv *v10Srv) stop() {
 	sv.cancel()
-	_ = sv.impl.Close()
+	v10Bounded("server Close()", func() { _ = sv.impl.Close() })
 	v10WaitGroup(&sv.wg, "server goroutines")
+}
+
+// v10Bounded runs a teardown step that has no deadline of its own; if it does
+// not return the run is inconclusive (and says where it hung) instead of hanging.
+func v10Bounded(what string, f func()) {
+	done := make(chan struct{})
+	go func() { f(); close(done) }()
+	select {
+	case <-done:
+	case <-time.After(2 * v10Wait):
+		vInconclusive("C10: teardown: " + what + " did not return")
+	}
 }
 
 func v10WaitGroup(wg *sync.WaitGroup, what string) {
@@ -493,8 +505,16 @@ func v10RecvConn(ch chan *quic.Conn) *quic.Conn {
 // 2^62-1 / 2^62: the largest rate a QUIC byte count can hold and the first one that saturates
 var v10Lattice = []uint64{0, 65536, 65537, 1000000, 1000000000, 1<<62 - 1, 1 << 62, 1<<63 - 1, 1 << 63, math.MaxUint64}
 
-// the client accepts any value: two sub-floor ones make min() interesting against the server's 65536 floor
-var v10ClientLattice = append([]uint64{1, 65535}, v10Lattice...)
+// The client accepts any value: sub-floor ones make min() interesting against the
+// server's 65536 floor. A declared RECEIVE rate of 1 B/s is left out on purpose:
+// the server installs Brutal(1 B/s) before it writes the 233 response, and once
+// the sender's 10-packet burst allowance is used up by spurious retransmissions
+// on a loaded machine the response takes ~20 minutes (observed: a shard hung) —
+// slow, not wrong, and not what C10 is about.
+var (
+	v10ClientTxLattice = append([]uint64{1, 65535}, v10Lattice...)
+	v10ClientRxLattice = append([]uint64{65535}, v10Lattice...)
+)
 
 var (
 	v10Types    = []string{"", "bbr", "BBR", "reno", "Reno"}
@@ -591,7 +611,7 @@ func v10RunNegotiate(c v10Case) (violation string, inconclusive string, huge boo
 	})
 	defer sv.stop()
 
-	cl, info, err := client.NewClient(&client.Config{
+	cl, info, err := v10NewClient(&client.Config{
 		ServerAddr:       sv.addr,
 		Auth:             "v10",
 		TLSConfig:        client.TLSConfig{InsecureSkipVerify: true},
@@ -601,7 +621,7 @@ func v10RunNegotiate(c v10Case) (violation string, inconclusive string, huge boo
 	if err != nil {
 		return "", fmt.Sprintf("handshake failed (%v) for %v", err, c), huge
 	}
-	defer cl.Close()
+	defer v10Bounded("client Close()", func() { _ = cl.Close() })
 
 	sconn := v10RecvConn(sv.conns)
 	authTx := v10RecvU64(sv.auth.tx, "Authenticate")
@@ -639,6 +659,32 @@ func v10RunNegotiate(c v10Case) (violation string, inconclusive string, huge boo
 	return "", "", huge
 }
 
+// v10NewClient is client.NewClient with a deadline: NewClient itself waits for
+// the 233 response without any timeout (keep-alives hold the connection open).
+func v10NewClient(cfg *client.Config) (client.Client, *client.HandshakeInfo, error) {
+	type res struct {
+		c    client.Client
+		info *client.HandshakeInfo
+		err  error
+	}
+	ch := make(chan res, 1)
+	go func() {
+		c, info, err := client.NewClient(cfg)
+		ch <- res{c, info, err}
+	}()
+	select {
+	case r := <-ch:
+		return r.c, r.info, r.err
+	case <-time.After(2 * v10Wait):
+		go func() { // whenever it returns (the caller tears the server down), do not leak the client
+			if r := <-ch; r.c != nil {
+				_ = r.c.Close()
+			}
+		}()
+		return nil, nil, fmt.Errorf("client.NewClient did not return within %v", 2*v10Wait)
+	}
+}
+
 func v10InfoTx(i *client.HandshakeInfo) uint64 {
 	if i == nil {
 		return 0
@@ -648,8 +694,8 @@ func v10InfoTx(i *client.HandshakeInfo) uint64 {
 
 func v10GenCase(t *rapid.T) v10Case {
 	var c v10Case
-	c.cTx = rapid.SampledFrom(v10ClientLattice).Draw(t, "clientMaxTx")
-	c.cRx = rapid.SampledFrom(v10ClientLattice).Draw(t, "clientMaxRx")
+	c.cTx = rapid.SampledFrom(v10ClientTxLattice).Draw(t, "clientMaxTx")
+	c.cRx = rapid.SampledFrom(v10ClientRxLattice).Draw(t, "clientMaxRx")
 	c.sTx = rapid.SampledFrom(v10Lattice).Draw(t, "serverMaxTx")
 	c.sRx = rapid.SampledFrom(v10Lattice).Draw(t, "serverMaxRx")
 	c.ignore = rapid.IntRange(0, 3).Draw(t, "ignoreClientBandwidth") == 0
@@ -819,7 +865,11 @@ func v10GenHeader(t *rapid.T, response bool) v10Hdr {
 		}
 		fallthrough
 	default:
-		n := rapid.SampledFrom(v10ClientLattice).Draw(t, "hdrNum")
+		lat := v10ClientRxLattice // what a client may declare
+		if response {
+			lat = v10ClientTxLattice // a fake server may answer anything, 1 included
+		}
+		n := rapid.SampledFrom(lat).Draw(t, "hdrNum")
 		s := fmt.Sprintf("%d", n)
 		if rapid.IntRange(0, 5).Draw(t, "leadingZeros") == 0 {
 			s = "000" + s
@@ -869,7 +919,7 @@ func v10RunRaw(c v10RawCase) (violation, inconclusive string, chosen v10Interp, 
 	}
 	defer pc.Close()
 	tr := &quic.Transport{Conn: pc}
-	defer tr.Close()
+	defer v10Bounded("raw client transport Close()", func() { _ = tr.Close() })
 	var cconn *quic.Conn
 	h3 := &http3.Transport{
 		TLSClientConfig: &tls.Config{InsecureSkipVerify: true, ServerName: "hysteria"},
@@ -882,7 +932,7 @@ func v10RunRaw(c v10RawCase) (violation, inconclusive string, chosen v10Interp, 
 			return qc, err
 		},
 	}
-	defer h3.Close()
+	defer v10Bounded("raw client http3 Close()", func() { _ = h3.Close() })
 	ctx, cancel := context.WithTimeout(context.Background(), v10Wait)
 	defer cancel()
 	req := (&http.Request{
@@ -1075,14 +1125,16 @@ func v10RunFake(c v10FakeCase) (violation, inconclusive string, chosen v10Interp
 	}()
 	defer func() {
 		cancel()
-		_ = ln.Close()
-		_ = h3s.Close()
-		_ = tr.Close()
-		_ = pc.Close()
+		v10Bounded("fake server Close()", func() {
+			_ = ln.Close()
+			_ = h3s.Close()
+			_ = tr.Close()
+			_ = pc.Close()
+		})
 		v10WaitGroup(&wg, "fake server goroutines")
 	}()
 
-	cl, info, err := client.NewClient(&client.Config{
+	cl, info, err := v10NewClient(&client.Config{
 		ServerAddr:       pc.LocalAddr(),
 		Auth:             "v10",
 		TLSConfig:        client.TLSConfig{InsecureSkipVerify: true},
@@ -1092,7 +1144,7 @@ func v10RunFake(c v10FakeCase) (violation, inconclusive string, chosen v10Interp
 	if err != nil {
 		return "", fmt.Sprintf("handshake with the fake server failed (%v) for %v", err, c), chosen, want
 	}
-	defer cl.Close()
+	defer v10Bounded("client Close()", func() { _ = cl.Close() })
 	gotC := v10ReadClientCC(cl)
 	if info == nil {
 		return "NewClient returned no HandshakeInfo: " + c.String(), "", chosen, want
@@ -1144,8 +1196,8 @@ func TestVerifC10_FakeServerHeader(t *testing.T) {
 		rand.Seed(rapid.Int64().Draw(rt, "mathRandSeed"))
 		var c v10FakeCase
 		c.hdr = v10GenHeader(rt, true)
-		c.cTx = rapid.SampledFrom(v10ClientLattice).Draw(rt, "clientMaxTx")
-		c.cRx = rapid.SampledFrom(v10ClientLattice).Draw(rt, "clientMaxRx")
+		c.cTx = rapid.SampledFrom(v10ClientTxLattice).Draw(rt, "clientMaxTx")
+		c.cRx = rapid.SampledFrom(v10ClientRxLattice).Draw(rt, "clientMaxRx")
 		c.cCC = v10GenCC(rt, "client")
 		c.cNoLC = rapid.Bool().Draw(rt, "clientDisableLossComp")
 		c.udpHdr = rapid.SampledFrom([]string{"true", "false", "", "yes"}).Draw(rt, "udpHdr")
